@@ -82,6 +82,7 @@ impl<const S: usize> PeerWantlist<S> {
                     }
                     CidGeneric::try_from(e.block).ok()
                 })
+                .take(MAX_WANTLIST_ENTRIES_PER_PEER)
                 .collect();
 
             return self.wantlist_replace(wanted_cids);
